@@ -195,6 +195,31 @@ NEEDS_DONORS = {'insert': 1, 'append': 1, 'setitem': 1}
 REFUSALS = (IndexError, ValueError)
 
 
+ATTACHED_KINDS = ['mid', 'head_tok', 'tail_tok', 'head_tree', 'tail_tree']
+
+
+def attached_donor(kind, other, scaf_name):
+    """A node that still lives in another document: (root of that document, node).
+    mid: inside a file; head_*/tail_*: first/last node of a stand-alone parsed model, so that the node touches one
+    end of its token store (a guard that only looks at one end lets these through)."""
+    if kind == 'mid':
+        f2 = docenv.PARSER.parse('2000-03-01 open Assets:S\n2000-03-02 note Assets:S "n" #mm\n2000-03-03 close Assets:S\n', M.File)
+        return f2, (f2.raw_directives[1].raw_date if scaf_name in ('custom_values', 'cost_comps') else f2.raw_directives[1])
+    if kind == 'head_tok':
+        o = docenv.PARSER.parse('2000-03-01 open Assets:S', M.Open)
+        return o, o.raw_date
+    if kind == 'tail_tok':
+        o = docenv.PARSER.parse('2000-03-02 note Assets:S "n" #zz', M.Note)
+        return o, o.raw_tags_links[-1]
+    if kind == 'head_tree':
+        o = docenv.PARSER.parse('1+2 USD', M.Amount)
+        return o, o.raw_number
+    if kind == 'tail_tree':
+        o = docenv.PARSER.parse('  Assets:S  1 USD\n    kk: 1\n    zz: 2', M.Posting)
+        return o, o.raw_meta[-1]
+    raise AssertionError(kind)
+
+
 def tree_dump(m):
     """Identity-level dump of the tree: slot paths with the id of each leaf token / type of each node."""
     return [(p, type(x).__name__, id(x) if isinstance(x, M.RawTokenModel) else None) for p, x in docenv.walk(m)]
@@ -229,8 +254,11 @@ def make_rep(scaf_name, n, op, facet, step=None, attached=False, twin=False):
         bad_ = pick(bad, 0, max(k, 1) - 1) if attached else -1
         with NoTracing():
             donors = [sc.donors[x]() for x in kinds]
+            src = None
             if attached and k:
-                donors[bad_] = other.raw_date if scaf_name in ('custom_values', 'cost_comps') else other
+                src, donors[bad_] = attached_donor(attached, other, scaf_name)
+                src_before = Snapshot(src.token_store)
+                src_dump = tree_dump(src)
             before = Snapshot(store)
             dump_before = tree_dump(f)
             parent_first, parent_last = parent.first_token, parent.last_token
@@ -276,6 +304,18 @@ def make_rep(scaf_name, n, op, facet, step=None, attached=False, twin=False):
                       'refuse: token identities changed by a refused call', op, (si, sj, step))
                 check(tree_dump(f) == dump_before, 'refuse: tree changed by a refused call', op, (si, sj, step))
                 docenv.tree_invariant(f, what='refuse')
+                if src is not None:
+                    src_after = Snapshot(src.token_store)
+                    check(src_after.text() == src_before.text() and len(src_after.tokens) == len(src_before.tokens)
+                          and all(x is y for x, y in zip(src_after.tokens, src_before.tokens)),
+                          'refuse: the document the attached node lives in was changed by the refused call', R(src_after.text()))
+                    check(tree_dump(src) == src_dump, 'refuse: the tree the attached node lives in was changed by the refused call')
+                    docenv.tree_invariant(src, what='refuse: source of the attached node')
+                for d in donors[:k]:
+                    if src is None or d.token_store is not src.token_store:
+                        st = d.token_store if isinstance(d, M.RawTreeModel) else None
+                        check(st is None or (len(list(st)) > 0 and d.first_token is st.get_first() and d.last_token is st.get_last()),
+                              'refuse: a free donor of the refused batch was consumed')
                 return
             if exp_exc is not None or got_exc is not None:
                 if facet == 'views':
@@ -324,7 +364,7 @@ def make_rep(scaf_name, n, op, facet, step=None, attached=False, twin=False):
                 raise AssertionError(facet)
 
     name = 'rep_%s_%s%d_%s%s%s%s' % (facet, scaf_name, n, op, ('_s%s' % step).replace('-', 'm') if step is not None else '',
-                                      '_attached' if attached else '', '_twin' if twin else '')
+                                      ('_attached_' + attached) if attached else '', '_twin' if twin else '')
     return name, cell
 
 
@@ -372,15 +412,18 @@ for _facet, _prop in FACET_PROP.items():
                     quick = _scaf in QUICK_SCAF[_facet][:2] and _n == 3 and _step in (2, -1)
                     _reg(make_rep(_scaf, _n, _op, _facet, step=_step), {_prop: Q if quick else T}, 900, 'rep/' + _facet,
                          _bounds(_scaf, _n, _op, _step), cost=(2 * _n + 7) ** 2 * 2)
-# attached donors: must be refused, document untouched (C19) / views unaffected (C10)
+# attached donors: must be refused, both documents untouched (C19); the tree stays valid (C05)
 for _scaf in SCAFFOLDS:
     for _n in (0, 2, 3):
         for _op in ('insert', 'append', 'setitem', 'setslice', 'extend'):
             if _n == 0 and _op == 'setitem':
                 continue
-            quick = _scaf in ('note_tags', 'txn_postings', 'file_dirs') and _n == 2
-            _reg(make_rep(_scaf, _n, _op, 'refuse', attached=True), {'C19': Q if quick else T}, 900, 'rep/refuse-attached',
-                 _bounds(_scaf, _n, _op) + '; one donor (symbolic position in the batch) is a node attached elsewhere', cost=300)
+            for _kind in ATTACHED_KINDS:
+                quick = (_scaf in ('note_tags', 'txn_postings', 'file_dirs') and _n == 2 and _kind in ('mid', 'tail_tok', 'head_tree')
+                         and _op in ('insert', 'setitem', 'setslice', 'extend'))
+                _reg(make_rep(_scaf, _n, _op, 'refuse', attached=_kind), {'C19': Q if quick else T, 'C05': Q if (quick and _kind != 'mid' and _op != 'extend') else T},
+                     900, 'rep/refuse-attached',
+                     _bounds(_scaf, _n, _op) + '; one donor (symbolic position in the batch) is a node attached elsewhere (%s)' % _kind, cost=300)
 for _facet, _prop in FACET_PROP.items():
     _reg(make_rep('note_tags', 2, 'setslice', _facet, twin=True), {_prop: Q}, 120, 'rep/' + _facet, 'vacuity twin', twin=True, cost=1)
 
